@@ -6,7 +6,7 @@ import os
 import uuid as _uuid
 
 from . import auxgen, refcodec, reftypes
-from .ctx import Discrepancy, op_guard
+from .ctx import Discrepancy, OpTimeout, op_guard
 
 SENT = 0xA5A55A5AC3C33C3C
 JAVA_LEAVES = ["int8_t", "uint8_t", "int16_t", "uint16_t", "int32_t",
@@ -81,12 +81,20 @@ class CodecMonitor:
     def pyenc(self, v, tn):
         b = io.BytesIO()
         with op_guard():
-            self.ser.encode(b, v, tn)
+            try:
+                self.ser.encode(b, v, tn)
+            except OpTimeout:
+                self.ctx.timeouts += 1
+                raise
         return b.getvalue()
 
     def pydec(self, raw, tn, resolver=None):
-        with op_guard():
-            return self.ser.decode(raw, tn, resolver)
+        with op_guard(4.0):
+            try:
+                return self.ser.decode(raw, tn, resolver)
+            except OpTimeout:
+                self.ctx.timeouts += 1
+                raise
 
     # -- helpers ---------------------------------------------------------
     def subvalues(self, v, t):
